@@ -136,8 +136,13 @@ def step (st : St) (cmd : String) (impl : String) : St × Verdict :=
                (op == "obs" && DBSuite.obsBuckets.any (getAllMiss s)) then some "D-SPARSE-RANGE" else out.taint)
     else if op == "prefix" || op == "psearch" then
       -- limit > 0: a page filled from the active tree alone is returned unfiltered (tombstones served)
+      -- offset > 0: tombstones / expired records of the active tree consume the offset, as in the RAM modes
       (let lim := if op == "prefix" then I 4 else I 5
-       if concatAmbiguous s st.buckets then some "D-SPARSE-CONCAT" else if sealedAny || lim > 0 then some "D-SPARSE-PAGE" else out.taint)
+       let off := if op == "prefix" then I 3 else I 4
+       let now := if op == "prefix" then N 5 else N 6
+       let hasDead := s.active.any fun p => p.2.r.bucket == B 1 && hasPrefix p.2.r.key (B 2) && dead p.2.r now
+       if concatAmbiguous s st.buckets then some "D-SPARSE-CONCAT" else if sealedAny || lim > 0 then some "D-SPARSE-PAGE"
+       else if hasDead && off > 0 then some "D-SCAN-DEAD" else out.taint)
     else if op == "get" then (if concatAmbiguous s st.buckets then some "D-SPARSE-CONCAT" else out.taint)
     else out.taint
   let taints := match out.taint with
